@@ -1,8 +1,43 @@
 // C09 unit driver: calls the real colvarparse functions on the same case lines as the model driver
 // (strings hex encoded), and, in scenario mode (`c09unit scn <file>`), runs engine-simulator scenarios with the
 // extra command `confighex <hex>` (a configuration given as arbitrary bytes).
+#include <cstdio>
+#include <cstdlib>
+#include <cstring>
+#include <cmath>
+#include <iostream>
+#include <fstream>
+#include <sstream>
+#include <string>
+#include <vector>
+#include <list>
+#include <map>
+#include <set>
+#include <algorithm>
+#include <functional>
+#include <thread>
+#include <mutex>
+#include <memory>
+#include <limits>
+#include <cstdint>
+#include <unordered_map>
+#include <unordered_set>
+#include <array>
+#include <omp.h>
+// the registry of looked-up keywords (allowed_keywords) of the real objects is read after their init():
+// private/protected members are made accessible for this file only (no change to /repo)
+#define private public
+#define protected public
 #include "vsim.h"
 #include "colvarparse.h"
+#include "colvarcomp.h"
+#include "colvaratoms.h"
+#include "colvarbias_restraint.h"
+#include "colvarbias_histogram.h"
+#include "colvarbias_meta.h"
+#include "colvarbias_abf.h"
+#undef private
+#undef protected
 
 struct P : public colvarparse {
   using colvarparse::data_begin_pos;
@@ -93,6 +128,20 @@ static std::string parse_flat(std::string const &schema, std::string const &conf
         for (size_t i = 0; i < v.size(); i++) out += (i ? ";" : "") + vs_hex(v[i]);
         out += "]";
       }
+    } else if (kind[0] == 'Y') {
+      size_t n = atoi(kind.c_str() + 1);
+      std::string o = "[";
+      bool found = false;
+      if (n == 3) {
+        std::vector<cvm::rvector> v;
+        found = p.get_keyval(conf, key.c_str(), v, std::vector<cvm::rvector>(), m);
+        for (size_t i = 0; i < v.size(); i++) o += (i ? "|" : "") + vs_hex(v[i].x) + ";" + vs_hex(v[i].y) + ";" + vs_hex(v[i].z);
+      } else {
+        std::vector<cvm::quaternion> v;
+        found = p.get_keyval(conf, key.c_str(), v, std::vector<cvm::quaternion>(), m);
+        for (size_t i = 0; i < v.size(); i++) o += (i ? "|" : "") + vs_hex(v[i].q0) + ";" + vs_hex(v[i].q1) + ";" + vs_hex(v[i].q2) + ";" + vs_hex(v[i].q3);
+      }
+      if (found) out = o + "]";
     } else if (kind[0] == 'T') {
       size_t n = atoi(kind.c_str() + 1);
       std::vector<double> comp;
@@ -207,9 +256,58 @@ static bool nested_level(std::vector<NItem> const &items, std::string const &con
   return ok;
 }
 
+// Run init() of a real object of the given kind on a configuration text and return the keywords it looked up
+// (its allowed_keywords BEFORE check_keywords clears them); then, optionally, the verdict of its real
+// check_keywords on the same text with one more line.  prelude: configuration read by the module first (variables
+// that a bias refers to).  Returns false if the kind is unknown.
+static bool record_block(std::string const &kind, std::string const &prelude, std::string const &conf,
+                         std::string const *extra_line, std::vector<std::string> &keys, std::string &verdict)
+{
+  colvarmodule *cv = cvm::main();
+  cvm::clear_error();
+  if (prelude.size()) cv->read_config_string(prelude);
+  cvm::clear_error();
+  colvarparse *obj = NULL;
+  colvar *var = NULL; colvar::cvc *comp = NULL; cvm::atom_group *grp = NULL; colvarbias *bias = NULL;
+  if (kind == "global") {
+    cv->parse->clear();
+    cv->parse_global_params(conf);
+    obj = cv->parse;
+  } else if (kind == "colvar") {
+    var = new colvar(); cv->colvars.push_back(var); var->init(conf); obj = var;
+  } else if (kind == "cvc:distance") { comp = new colvar::distance(); comp->init(conf); obj = comp; }
+  else if (kind == "cvc:distancez") { comp = new colvar::distance_z(); comp->init(conf); obj = comp; }
+  else if (kind == "cvc:distancevec") { comp = new colvar::distance_vec(); comp->init(conf); obj = comp; }
+  else if (kind == "group") { grp = new cvm::atom_group("main"); grp->parse(conf); obj = grp; }
+  else {
+    if (kind == "bias:harmonic") bias = new colvarbias_restraint_harmonic("harmonic");
+    else if (kind == "bias:harmonicwalls") bias = new colvarbias_restraint_harmonic_walls("harmonicwalls");
+    else if (kind == "bias:linear") bias = new colvarbias_restraint_linear("linear");
+    else if (kind == "bias:histogram") bias = new colvarbias_histogram("histogram");
+    else if (kind == "bias:metadynamics") bias = new colvarbias_meta("metadynamics");
+    else if (kind == "bias:abf") bias = new colvarbias_abf("abf");
+    else return false;
+    cv->biases.push_back(bias); bias->rank = 1; bias->init(conf); obj = bias;
+  }
+  verdict = (cvm::get_error() == COLVARS_OK) ? "init-ok" : "init-error";
+  for (std::list<std::string>::iterator ki = obj->allowed_keywords.begin(); ki != obj->allowed_keywords.end(); ki++) keys.push_back(*ki);
+  if (extra_line) {
+    cvm::clear_error();
+    std::string c2 = conf + (conf.size() && conf[conf.size() - 1] != '\n' ? "\n" : "") + *extra_line + "\n";
+    verdict = (obj->check_keywords(c2, "recorded") == COLVARS_OK) ? "accept" : "reject";
+  }
+  cvm::clear_error();
+  if (kind == "global") cv->parse->clear();
+  if (var) delete var;
+  if (comp) delete comp;
+  if (grp) delete grp;
+  if (bias) delete bias;
+  return true;
+}
+
 static void unit_loop()
 {
-  vsim_engine eng; eng.resize(1);
+  vsim_engine eng; eng.resize(8);
   vsim_proxy *proxy = new vsim_proxy(&eng, true);
   std::string line;
   while (std::getline(std::cin, line)) {
@@ -255,6 +353,40 @@ static void unit_loop()
         std::vector<NItem> items = (a[1] == "-") ? std::vector<NItem>() : parse_nested_schema(a[1], pos);
         if (colvarparse::check_braces(conf, 0) != COLVARS_OK) out = "reject";
         else out = nested_level(items, conf) ? "accept" : "reject";
+      } else if (cmd == "HK" || cmd == "HC") {
+        // HK kind prelude conf        -> keywords that init() of the real object looks up (sorted)
+        // HC kind prelude conf word   -> verdict of the object's real check_keywords on conf + a line holding word
+        delete proxy; proxy = new vsim_proxy(&eng, true);      // a fresh module for every recording
+        std::vector<std::string> keys; std::string verdict;
+        std::string extra = (cmd == "HC") ? unhex(a[3]) : std::string();
+        std::ostringstream lg;
+        if (cmd == "HK") {
+          // the prelude is read quietly; the log of init() itself is kept: the keywords it ECHOES ("# keyword = value")
+          cvm::clear_error();
+          if (a[1] != "-") cvm::main()->read_config_string(unhex(a[1]));
+          proxy->logos = &lg;
+        }
+        if (!record_block(a[0], (cmd == "HK") ? std::string() : unhex(a[1]), unhex(a[2]), (cmd == "HC") ? &extra : NULL, keys, verdict)) out = "unknown-kind";
+        else if (cmd == "HC") out = verdict;
+        else {
+          std::sort(keys.begin(), keys.end());
+          out = verdict;
+          for (auto &k : keys) out += " " + hex(k);
+          // echoed keywords of the object itself = the "#" lines with the smallest indentation
+          std::istringstream ls(lg.str());
+          std::string l; size_t best = std::string::npos; std::vector<std::pair<size_t, std::string> > ech;
+          while (std::getline(ls, l)) {
+            size_t i = l.find_first_not_of(' ');
+            if (i == std::string::npos || l[i] != '#' || i + 2 >= l.size()) continue;
+            size_t e = l.find(" = ", i);
+            if (e == std::string::npos) continue;
+            ech.push_back(std::make_pair(i, l.substr(i + 2, e - i - 2)));
+            if (i < best) best = i;
+          }
+          out += " |";
+          for (auto &pr : ech) if (pr.first == best) out += " " + hex(pr.second);
+        }
+        proxy->logos = NULL;
       } else if (cmd == "IX") {
         // colvarmodule::read_index_file on a file with the given bytes
         static int ixn = 0;
